@@ -31,7 +31,8 @@ CHECKS = {
             "5 C04"),
     "C05": ("fault_enumeration",
             "fault injection on generated committed datasets (bit flips, "
-            "truncation, extension, deletion, sibling swap, rollback) with a "
+            "truncation, extension, deletion, sibling swap, rollback, byte "
+            "substitution / insertion, well-formed JSON edits) with a "
             "reference-digest metamorphic oracle; exhaustive offset sweep per "
             "dataset",
             "Positive clause after every session of generated histories; "
@@ -113,15 +114,21 @@ CHECKS = {
             "Hypothesis datasets x repeating reads; prefix of m*N+r elements "
             "vs periodicity / membership / per-epoch permutation oracles",
             "repeat=True (explicit and default) on every interface; stream "
-            "must not end within 2..4 epochs, only examples of the split, "
-            "unshuffled periodic with the one-pass sequence, Rust epochs are "
-            "permutations.", "Prefixes only (stream is infinite).", "5 C19"),
+            "must not end within 2..4 epochs (stage long: 1200..6000 epochs "
+            "of a tiny split; stage pause: after the consumer paused 11/21 "
+            "s), only examples of the split, unshuffled periodic with the "
+            "one-pass sequence of a freshly opened handle, Rust epochs are "
+            "permutations, a re-entered RustGenerator stays periodic.",
+            "Prefixes only (stream is infinite); tfrec is not part of the "
+            "long stage (50 ms per shard open).", "5 C19"),
     "C07": ("fault_enumeration",
             "fault injection: damaged/missing shard x interface x shuffle x "
             "parallelism x repeat cells, decoder-rejection ground truth, "
             "watchdog-guarded forks",
-            "Cells of the fault matrix (quick: Hypothesis-sampled, thorough: "
-            "the whole matrix enumerated); a cell carries an obligation only "
+            "Cells of the fault matrix (quick: a grid stratified over format "
+            "x compression x interface x damage x shuffle plus "
+            "Hypothesis-sampled cells, with and without a caller-supplied "
+            "transformation; thorough: the whole matrix enumerated); a cell carries an obligation only "
             "if the file is missing or the interface's own single-shard "
             "decoder rejects it; the pass must raise (no silent skip, no "
             "hang; hang only after a second run with doubled watchdog).",
@@ -144,7 +151,11 @@ CHECKS = {
             "preemption-bounded exhaustive DFS for tiny configurations, "
             "real-thread cross-check",
             "Scenarios complete / abandon@k / fail@j / twice / "
-            "abandon-then-reuse under generated schedules of T+1 threads; "
+            "abandon-then-reuse / stale generator closed later / two pools in "
+            "lock step / abandoned failing iteration then reuse, inputs that "
+            "are integers, arrays or equal-to-everything objects, T in 1..4 "
+            "(4% of the cases 5..72), under generated schedules of T+1 "
+            "threads; "
             "deadlock and thread leaks detected without a clock; timed "
             "get/put may time out whenever they cannot proceed. DFS: all "
             "schedules with <=1 (quick) / <=2 (thorough) preemptions for "
